@@ -4,6 +4,7 @@
 #include "simwasi_ops.h"
 
 static std::string g_scratch_base = "/dev/shm", g_replay_dir = "/verif/replays";
+static std::string g_build_tag;    // build configuration of this binary (written into replay files)
 static bool g_write_replays = true;
 // fixed-width scratch names: path lengths (PATH_MAX sweeps) must not depend on the process id
 static std::string pid7() { char b[16]; snprintf(b, sizeof b, "%07d", (int)getpid()); return b; }
@@ -343,7 +344,7 @@ static int run_plan(uint64_t idx, const Plan& p) {
     std::vector<uint32_t> trace(S->trace, S->trace + S->ntrace);
     if (!res.sigs.empty() && g_write_replays) {
         char path[512]; snprintf(path, sizeof path, "%s/%s-%016llx.replay", g_replay_dir.c_str(), P.c_str(), (unsigned long long)p.seed);
-        FILE* f = fopen(path, "w"); if (f) { std::string d = res.detail.substr(0, 2500); for (char& c : d) if (c == '\n') c = ' '; fprintf(f, "# signature %s\n# detail %s\n%s", all.c_str(), d.c_str(), plan_to_text(p, &trace).c_str()); fclose(f); rp = path; }
+        FILE* f = fopen(path, "w"); if (f) { std::string d = res.detail.substr(0, 2500); for (char& c : d) if (c == '\n') c = ' '; fprintf(f, "# signature %s\n# detail %s\n%s%s", all.c_str(), d.c_str(), g_build_tag.empty() ? "" : ("# build " + g_build_tag + "\n").c_str(), plan_to_text(p, &trace).c_str()); fclose(f); rp = path; }
     }
     std::string det = res.detail; for (char& c : det) if (c == '\n') c = ' ';
     printf("R idx=%llu seed=%llu status=%s verdict=%s sig=%s log=%016llx il=%016llx steps=%llu switches=%llu memev=%llu simns=%lld ops=%llu tasks=%d planops=%zu faults=",
@@ -360,7 +361,7 @@ static int run_plan(uint64_t idx, const Plan& p) {
     return res.sigs.empty() ? 0 : 1;
 }
 
-extern "C" __attribute__((used)) const char* __asan_default_options() { return "exitcode=77:detect_leaks=0:abort_on_error=0"; }
+extern "C" __attribute__((used)) const char* __asan_default_options() { return "exitcode=77:detect_leaks=0:abort_on_error=0:max_malloc_fill_size=1073741824:malloc_fill_byte=190"; }
 extern "C" __attribute__((used)) const char* __ubsan_default_options() { return "halt_on_error=1:exitcode=77:print_stacktrace=1"; }
 extern "C" void trap(int code) { fprintf(stderr, "TRAP %d\n", code); _exit(78); }
 
@@ -370,7 +371,7 @@ int main(int argc, char** argv) {
         std::string a = argv[i]; auto nxt = [&]() { return std::string(i + 1 < argc ? argv[++i] : ""); };
         if (a == "--prop") prop = nxt(); else if (a == "--seed") root = strtoull(nxt().c_str(), 0, 10); else if (a == "--start") start = strtoull(nxt().c_str(), 0, 10);
         else if (a == "--count") count = strtoull(nxt().c_str(), 0, 10); else if (a == "--stride") stride = strtoull(nxt().c_str(), 0, 10); else if (a == "--replay") replay = nxt();
-        else if (a == "--dump-plan") dump = true; else if (a == "--replay-dir") g_replay_dir = nxt(); else if (a == "--no-replay-files") g_write_replays = false; else if (a == "--scratch") g_scratch_base = nxt();
+        else if (a == "--dump-plan") dump = true; else if (a == "--replay-dir") g_replay_dir = nxt(); else if (a == "--no-replay-files") g_write_replays = false; else if (a == "--scratch") g_scratch_base = nxt(); else if (a == "--build-tag") g_build_tag = nxt();
     }
     S = (Shared*)mmap(nullptr, sizeof(Shared), PROT_READ | PROT_WRITE, MAP_SHARED | MAP_ANONYMOUS, -1, 0);
     setvbuf(stdout, nullptr, _IOLBF, 0);
